@@ -1,5 +1,10 @@
 import SaModel.Lemmas.C16Run
 import SaModel.Lemmas.C16FromType
+import SaModel.Lemmas.C16Depth
+import SaModel.Lemmas.C16Time
+import SaModel.Lemmas.C16SchemaJson
+import SaModel.Lemmas.C16DeepTerm
+import SaModel.Lemmas.C12Batch
 import SaModel.Props.C17
 import SaModel.Props.C14
 import SaModel.Props.C15
@@ -19,8 +24,16 @@ Builder side (proofs in Lemmas/C16Basic, C16Inv, C16Push, C16New, C16Run):
   unchecked have one entry per field / variant; decimal precisions are the accepted ones), `push` does not unwind;
   `NPInv` is established by `build_builder` and preserved by every successful push of every value;
 * `newDT`, `finish`, `extend`, `serializeWith`, `runRows`, `toMarrow` never unwind, for every field list and all rows.
-The external conversions enter through `ExtNP ext` (they do not unwind); `codecExt_np` discharges it for the
-C14 / C15 codec models.  The per-codec theorems are collected at the end.
+The external conversions enter through `ExtNP ext` (they do not unwind); `codecExt_np` discharges it — without any
+hypothesis — for the C14 / C15 codec models, the timestamp string parser included (`timestampOfString_no_panic`).
+
+Tracing: `absorb_no_panic` / `fromSamples_no_panic`; `fromType_no_panic` for EVERY type description and all options
+(corollary of C08's `C08_from_type`), `explore_no_panic` on every tracer that conforms to the type (`Conf`),
+`passes_no_panic`; the pass budget; the depth limit for every container family (`fromType_deep_is_error`,
+`descends_containers`, `descends_wrappers`).
+Reader: `Deserializer::new` / `get` / `next` / bulk over arbitrary views; whole-batch typed reads (`readBatch_no_panic`).
+Schema side: `Term::from_str`, `build_data_type`, `validate_field`, `parseField`, `parseSchema` for every text / JSON
+value (`parseField_no_panic` …).  The per-codec and per-helper theorems (C13–C15, C20) are collected at the end.
 -/
 namespace SaModel.Props.C16
 open SaModel SaModel.Build
@@ -102,11 +115,36 @@ theorem extDefault_np : ExtNP {} :=
 def codecUnit : SaModel.TimeUnit → SaModel.Codec.TimeUnit
   | .second => .second | .millisecond => .millisecond | .microsecond => .microsecond | .nanosecond => .nanosecond
 
+/-- `TimestampBuilder::serialize_str` (the timestamp string parser): for EVERY string, unit and time-zone setting a
+value or an error.  The one panic branch of the model — chrono's `timestamp_millis()` / `timestamp_micros()` overflowing
+`i64` — is unreachable: every instant the parser models return lies inside chrono's date range
+(`parseNaiveDateTime_range`, `parseUtcDateTime_range`: days in [-96465292, 95026236], second of day < 86400,
+nanosecond < 2·10^9, the leap second included), where the products fit (`C14.instantToUnits_no_panic`). -/
+theorem timestampOfString_no_panic (u : SaModel.Codec.TimeUnit) (utc : Bool) (s : List Char) :
+    (SaModel.Codec.timestampOfString u utc s).isPanic = false := Lemmas.C16.timestampOfString_np u utc s
+
+/-- the instants the two date-time parsers return are inside chrono's range -/
+theorem parseNaiveDateTime_range {s : List Char} {t : SaModel.Codec.Instant} (h : SaModel.Codec.parseNaiveDateTime s = .ok t) :
+    SaModel.Codec.inChronoDays t.days = true ∧ t.secs < 86400 ∧ t.nanos < 2000000000 :=
+  Lemmas.C16.parseNaiveDateTime_range h
+
+theorem parseUtcDateTime_range {s : List Char} {t : SaModel.Codec.Instant} (h : SaModel.Codec.parseUtcDateTime s = .ok t) :
+    SaModel.Codec.inChronoDays t.days = true ∧ t.secs < 86400 ∧ t.nanos < 2000000000 :=
+  Lemmas.C16.parseUtcDateTime_range h
+
+/-- non-vacuity: the extreme dates of chrono's range, a leap second, a zone offset that moves the date; strings that
+are refused -/
+example : (SaModel.Codec.timestampOfString .microsecond false "+262142-12-31T23:59:60.999999999".toList).isOk = true ∧
+    (SaModel.Codec.timestampOfString .microsecond true "-262143-01-01T00:00:00Z".toList).isOk = true ∧
+    (SaModel.Codec.timestampOfString .nanosecond false "+262142-12-31T23:59:59".toList).isErr = true ∧
+    (SaModel.Codec.timestampOfString .millisecond true "-262143-01-01T00:00:00+01:00".toList).isErr = true ∧
+    (SaModel.Codec.timestampOfString .second true "2020-02-30T00:00:00Z".toList).isErr = true ∧
+    (SaModel.Codec.timestampOfString .second false "".toList).isErr = true := by decide +kernel
+
 /-- the external functions as the correspondence driver instantiates them (Driver/Suites/Build.lean `extOfAux`):
-decimal and temporal string conversions are the codec models of C15 / C14; the float display strings, the float
-product of the decimal float path (`cast`) and the timestamp parser are parameters -/
-def codecExt (f32Str f64Str : Nat → String) (cast : Nat → Int → Bool → Nat → Option (Bool × Int))
-    (parseTimestamp : SaModel.TimeUnit → Bool → String → R Int) : Ext :=
+decimal and temporal string conversions are the codec models of C15 / C14; the float display strings and the float
+product of the decimal float path (`cast`) are parameters (they come from the case) -/
+def codecExt (f32Str f64Str : Nat → String) (cast : Nat → Int → Bool → Nat → Option (Bool × Int)) : Ext :=
   { f32Str := f32Str, f64Str := f64Str,
     parseDecimal := fun p s txt => SaModel.Decimal.serializeStr p s txt.toUTF8.toList,
     floatToDecimal := fun p s is64 bits =>
@@ -116,20 +154,16 @@ def codecExt (f32Str f64Str : Nat → String) (cast : Nat → Int → Bool → N
     parseDate := fun is64 s => SaModel.Codec.dateOfString (if is64 then .date64 else .date32) s.toList,
     parseTime := fun u s =>
       SaModel.Codec.timeOfString (match u with | .second | .millisecond => .time32 | _ => .time64) (codecUnit u) s.toList,
-    parseTimestamp := parseTimestamp,
+    parseTimestamp := fun u utc s => SaModel.Codec.timestampOfString (codecUnit u) utc s.toList,
     parseDuration := fun u s => SaModel.Codec.durationOfString s.toList (codecUnit u) }
 
-/-- `ExtNP` is a theorem for the codec models (date, time, duration, decimal string and float paths).
-`_partial`: the timestamp string parser (`Codec.timestampOfString`) has no no-panic theorem in C14 yet (its model
-has a panic branch for `timestamp_millis/micros` overflow that is unreachable inside chrono's range), so it stays a
-hypothesis here. -/
-theorem codecExt_np_partial (f32Str f64Str : Nat → String) (cast : Nat → Int → Bool → Nat → Option (Bool × Int))
-    (parseTimestamp : SaModel.TimeUnit → Bool → String → R Int)
-    (hts : ∀ u utc s, (parseTimestamp u utc s).isPanic = false) :
-    ExtNP (codecExt f32Str f64Str cast parseTimestamp) where
+/-- `ExtNP` is a theorem for the codec models: date, time, timestamp and duration string parsers, decimal string and
+float paths — no hypothesis left -/
+theorem codecExt_np (f32Str f64Str : Nat → String) (cast : Nat → Int → Bool → Nat → Option (Bool × Int)) :
+    ExtNP (codecExt f32Str f64Str cast) where
   parseDate := fun _ _ => SaModel.Props.C14.dateOfString_no_panic _ _
   parseTime := fun _ _ => SaModel.Props.C14.timeOfString_no_panic _ _ _
-  parseTimestamp := hts
+  parseTimestamp := fun _ _ _ => timestampOfString_no_panic _ _ _
   parseDuration := fun _ _ => SaModel.Props.C14.span_no_panic _ _
   parseDecimal := fun p sc s h1 h2 =>
     (isPanic_false_iff _).2 (fun site => SaModel.Props.C15.parse_no_panic p sc _ h1 h2 site)
@@ -138,6 +172,12 @@ theorem codecExt_np_partial (f32Str f64Str : Nat → String) (cast : Nat → Int
     split
     · exact (isPanic_false_iff _).2 (fun site => SaModel.Props.C15.float_no_panic p sc _ _ site)
     · rfl
+
+/-- `to_marrow` with the codec models plugged in: no hypothesis on the external functions is left -/
+theorem toMarrow_codec_no_panic (f32Str f64Str : Nat → String) (cast : Nat → Int → Bool → Nat → Option (Bool × Int))
+    (fields : List Field) (rows : List SVal) (site : String) :
+    toMarrow (codecExt f32Str f64Str cast) fields rows ≠ panic site :=
+  Lemmas.C16.ne_panic_of_isPanic (Lemmas.C16.toMarrow_np _ (codecExt_np f32Str f64Str cast) fields rows) site
 
 /-- `into_array` of every builder -/
 theorem finish_no_panic (ext : Ext) (he : ExtNP ext) (b : B) (hb : NPInv b) (site : String) : finish ext b ≠ panic site :=
@@ -247,27 +287,130 @@ theorem fromTypeLoop_exhausted (c : Code) (o : Options) (ty : Ty) (budget : Nat)
     fromTypeLoop c o ty budget t ≠ .ok t' :=
   Lemmas.C16.fromTypeLoop_exhausted c o ty budget t h t'
 
-/-- the depth limit cuts every unfolding of a recursive type: more than `MAX_TYPE_DEPTH` nested containers are
-refused with the documented error in the first pass (here: `Vec<Vec<…>>`; `Option` and newtypes do not add depth) -/
+/-- C16 for `from_type`: `SerdeArrowSchema::from_type::<T>(options)` returns a schema or an error for EVERY type
+description and ALL options (budget, overwrites, every flag).  Corollary of `C08_from_type`
+(`Agree (fromType c o ty) (Spec.fromTypeSpec o ty)`; `Agree` relates only values and Rust errors). -/
+theorem fromType_no_panic (c : Code) (o : Options) (ty : Ty) (site : String) : fromType c o ty ≠ .error (.panic site) :=
+  Lemmas.C16.ne_panic_of_isPanic (Lemmas.C16.fromType_np c o ty) site
+
+/-- one pass of the derived `Deserialize` never unwinds on a tracer that conforms to the type (`Conf`, C08: the tracer
+was grown by `explore` from this very type at this path; a fresh node conforms to every type), and the result conforms
+again (or the pass is a Rust error) -/
+theorem explore_no_panic (c : Code) (o : Options) (ty : Ty) (p : String) (t : Tracer) (h : Lemmas.C08.Conf o p ty t)
+    (site : String) : explore c o t ty ≠ .error (.panic site) :=
+  Lemmas.C16.ne_panic_of_isPanic (Lemmas.C16.explore_np c o ty p t h) site
+
+theorem explore_preserves_conf (c : Code) (o : Options) (ty : Ty) (p : String) (t t' : Tracer)
+    (h : Lemmas.C08.Conf o p ty t) (he : explore c o t ty = .ok t') : Lemmas.C08.Conf o p ty t' := by
+  have := Lemmas.C08.explore_conf c o ty p t h
+  rw [he] at this; exact this
+
+/-- ANY number of consecutive passes from a fresh node (beyond completion and past the budget too) never unwinds -/
+theorem passes_no_panic (c : Code) (o : Options) (ty : Ty) (k : Nat) (site : String) :
+    passes c o ty k (Tracer.new "$" "$") ≠ .error (.panic site) :=
+  Lemmas.C16.ne_panic_of_isPanic (Lemmas.C16.passes_np c o ty k "$" "$" false) site
+
+/-- the invariant is needed: on a tracer state `from_type` cannot reach (a union with an unseen slot) `explore` does
+unwind in the model (`opt.as_ref().unwrap()` in the variant scan) -/
+theorem explore_unreachable_state_panics :
+    (explore .fixed {} (.union "$" "$" false (.absent .nil)) (.enum "E" (.unit "A" .nil))).isPanic = true := by decide
+
+/-- non-vacuity of `explore_no_panic`: the tracer after one pass over an enum conforms (and is not complete) -/
+example : ∃ t, explore .fixed {} (Tracer.new "$" "$") (.enum "E" (.unit "A" (.newtype "B" (.vec .bool) .nil))) = .ok t ∧
+    Lemmas.C08.Conf {} "$" (.enum "E" (.unit "A" (.newtype "B" (.vec .bool) .nil))) t ∧ t.is_complete = false := by
+  have hok : (explore .fixed {} (Tracer.new "$" "$") (.enum "E" (.unit "A" (.newtype "B" (.vec .bool) .nil)))).isOk = true := by
+    decide +kernel
+  cases h : explore .fixed {} (Tracer.new "$" "$") (.enum "E" (.unit "A" (.newtype "B" (.vec .bool) .nil))) with
+  | error e => rw [h] at hok; cases hok
+  | ok t =>
+    refine ⟨t, rfl, explore_preserves_conf _ _ _ _ _ _ (Lemmas.C08.conf_fresh _ _ "$" "$" false) h, ?_⟩
+    have hc : ((explore .fixed {} (Tracer.new "$" "$") (.enum "E" (.unit "A" (.newtype "B" (.vec .bool) .nil)))).toOption.map
+        Tracer.is_complete) = some false := by decide +kernel
+    rw [h] at hc
+    simpa [Except.toOption] using hc
+
+/-! #### the depth limit: recursive types, every container family -/
+
+open SaModel.Trace.Spec (walkable) in
+open SaModel.Lemmas.C08 (Descends unroll) in
+/-- the depth limit cuts every unrolling of a recursive type.  A recursive Rust definition `T = F T` is represented by
+its unrollings `unroll F n base` (`Ty` is a finite tree; a pass never looks below the first container that is too
+deep, so `from_type::<T>` behaves like these); when `F` puts its argument at least one path level down (`Descends`)
+every unrolling deeper than `MAX_TYPE_DEPTH` = 20 is an error VALUE of `from_type` — for all options, every budget. -/
+theorem fromType_deep_is_error (c : Code) (o : Options) (F : Ty → Ty) (hF : Descends o F) (base : Ty) (n : Nat)
+    (hn : MAX_TYPE_DEPTH < n) : (fromType c o (unroll F n base)).isErr = true :=
+  Lemmas.C16.fromType_recursive_err c o F hF base n hn
+
+section Families
+open SaModel.Lemmas.C08 (Descends unroll)
+open SaModel.Lemmas.C16 (TysMem FieldsMem PayloadMem)
+
+/-- EVERY container constructor of the type description descends, wherever the recursive occurrence sits among the
+elements, fields or variant payloads: `Vec` (sequences), maps (key or value), tuples / arrays, tuple structs, structs,
+enums (newtype, tuple and struct variants) -/
+theorem descends_containers (o : Options) :
+    Descends o (fun t => .vec t) ∧
+    (∀ k, Descends o (fun t => .map k t)) ∧ (∀ v, Descends o (fun t => .map t v)) ∧
+    (∀ G : Ty → Tys, (∀ t, TysMem t (G t)) → Descends o (fun t => .tuple (G t))) ∧
+    (∀ name (G : Ty → Tys), (∀ t, TysMem t (G t)) → Descends o (fun t => .tupleStruct name (G t))) ∧
+    (∀ name (G : Ty → TyFields), (∀ t, FieldsMem t (G t)) → Descends o (fun t => .struct name (G t))) ∧
+    (∀ name (G : Ty → TyVariants), (∀ t, PayloadMem t (G t)) → Descends o (fun t => .enum name (G t))) :=
+  ⟨Lemmas.C16.descends_vec o, Lemmas.C16.descends_map_value o, Lemmas.C16.descends_map_key o,
+   Lemmas.C16.descends_tuple o, Lemmas.C16.descends_tupleStruct o, Lemmas.C16.descends_struct o,
+   Lemmas.C16.descends_enum o⟩
+
+/-- the transparent wrappers (`Option`, `Box`, newtype structs add no path level) on either side of a descending
+constructor, and nesting of descending constructors -/
+theorem descends_wrappers (o : Options) (F : Ty → Ty) (hF : Descends o F) :
+    Descends o (fun t => .option (F t)) ∧ (∀ name, Descends o (fun t => .newtypeStruct name (F t))) ∧
+    Descends o (fun t => F (.option t)) ∧ (∀ name, Descends o (fun t => F (.newtypeStruct name t))) ∧
+    (∀ G, Descends o G → Descends o (fun t => F (G t))) :=
+  ⟨Lemmas.C16.descends_option o F hF, fun name => Lemmas.C16.descends_newtype o name F hF,
+   Lemmas.C16.descends_of_option o F hF, fun name => Lemmas.C16.descends_of_newtype o name F hF,
+   fun G hG => Lemmas.C16.descends_comp o F G hF hG⟩
+
+/-- `Option` / newtypes alone do NOT descend — and need not: `struct W(Option<Box<W>>)` is traced to an error by the
+budget, not by the depth limit -/
+example : ¬ Descends {} (fun t => .option t) := by
+  intro h
+  have := (h .bool "$.a.a.a.a.a.a.a.a.a.a.a.a.a.a.a.a.a.a.a.a" (by decide)).1
+  revert this; decide
+
+/-- non-vacuity: `struct Node { value: i32, next: Option<Box<Node>> }`, `enum Tree { Leaf, Node(Box<Tree>, Box<Tree>) }`,
+`struct Dir { entries: HashMap<String, Dir> }`, `struct Rose(Vec<Rose>)` — every unrolling of more than 20 levels is
+an error of `from_type`, whatever the options -/
+example (c : Code) (o : Options) (base : Ty) (n : Nat) (hn : MAX_TYPE_DEPTH < n) :
+    (fromType c o (unroll (fun t => .struct "Node" (.cons "value" (.int .i32) (.cons "next" (.option t) .nil))) n base)).isErr = true ∧
+    (fromType c o (unroll (fun t => .enum "Tree" (.unit "Leaf" (.tuple "Node" (.cons t (.cons t .nil)) .nil))) n base)).isErr = true ∧
+    (fromType c o (unroll (fun t => .struct "Dir" (.cons "entries" (.map .string t) .nil)) n base)).isErr = true ∧
+    (fromType c o (unroll (fun t => .newtypeStruct "Rose" (.vec t)) n base)).isErr = true := by
+  refine ⟨fromType_deep_is_error c o _ ?_ base n hn, fromType_deep_is_error c o _ ?_ base n hn,
+    fromType_deep_is_error c o _ ?_ base n hn, fromType_deep_is_error c o _ ?_ base n hn⟩
+  · exact Lemmas.C16.descends_of_option o (fun t => .struct "Node" (.cons "value" (.int .i32) (.cons "next" t .nil)))
+      (Lemmas.C16.descends_struct o "Node" (fun t => .cons "value" (.int .i32) (.cons "next" t .nil))
+        (fun t => Or.inr (Or.inl rfl)))
+  · exact Lemmas.C16.descends_enum o "Tree" (fun t => .unit "Leaf" (.tuple "Node" (.cons t (.cons t .nil)) .nil))
+      (fun t => Or.inl (Or.inl rfl))
+  · exact Lemmas.C16.descends_comp o (fun t => .struct "Dir" (.cons "entries" t .nil)) (fun t => .map .string t)
+      (Lemmas.C16.descends_struct o "Dir" (fun t => .cons "entries" t .nil) (fun t => Or.inl rfl))
+      (Lemmas.C16.descends_map_value o .string)
+  · exact Lemmas.C16.descends_newtype o "Rose" _ (Lemmas.C16.descends_vec o)
+
+end Families
+
+/-- for `Vec<Vec<…>>` (`nestVec k ty` = `unroll Vec k ty`) moreover: the refusal is the documented message, in the FIRST
+pass, whatever the inner type -/
 theorem explore_deep (c : Code) (o : Options) (ty : Ty) (k : Nat) (hk : MAX_TYPE_DEPTH + 1 ≤ k) :
     explore c o (Tracer.new "$" "$") (nestVec k ty) = fail "Too deeply nested type detected" :=
   Lemmas.C16.explore_deep_vec c o ty k "$" "$" false (by rw [Lemmas.C16.countDots_root]; exact Nat.zero_le _)
     (by rw [Lemmas.C16.countDots_root]; omega)
 
-theorem fromType_deep_is_error (c : Code) (o : Options) (ty : Ty) (k : Nat) (hk : MAX_TYPE_DEPTH + 1 ≤ k) :
-    (fromType c o (nestVec k ty)).isErr = true := Lemmas.C16.fromType_deep_vec c o ty k hk
-
 example : (fromTypeLoopN .fixed {} (.struct "S" (.cons "a" (.option .bool) .nil)) 100 (Tracer.new "$" "$")).2 = 1 := by
   decide +kernel
-example : (fromType .fixed {} (nestVec 21 .bool)).isErr = true := fromType_deep_is_error _ _ _ 21 (by decide)
+example : (fromType .fixed {} (nestVec 21 .bool)).isErr = true := by
+  rw [Lemmas.C16.nestVec_eq_unroll]
+  exact fromType_deep_is_error _ _ _ (Lemmas.C16.descends_vec _) _ 21 (by decide)
 example : (fromType .fixed {} (.struct "S" (.cons "a" (nestVec 3 .bool) .nil))).isOk = true := by decide +kernel
-
-/-- `explore` on a tracer state `from_type` cannot reach (a union with an unseen slot) does unwind in the model
-(`opt.as_ref().unwrap()` in the variant scan): a no-panic theorem for `explore` needs the invariant "the tracer was
-grown by `explore` from the same type".  OPEN: `explore_no_panic` / `fromType_no_panic` under that invariant
-(notes/C16.md describes it). -/
-theorem explore_unreachable_state_panics :
-    (explore .fixed {} (.union "$" "$" false (.absent .nil)) (.enum "E" (.unit "A" .nil))).isPanic = true := by decide
 
 end Tracing
 
@@ -302,7 +445,147 @@ theorem deserializer_access_no_panic (a : Arr) (t : Target) (len : Nat) :
 example : Access.new true 2 [3, 4] = fail "Cannot deserialize from arrays with different lengths" := by decide
 example : Access.bulk 3 = [0, 1, 2] := by decide
 
+open SaModel.Lemmas.C12 (colLens batch)
+
+/-- a whole-batch read through the access layer with a typed target — `Vec<T>::deserialize(Deserializer::from_marrow(
+fields, views)?)`: `Deserializer::new` (count / length checks, the record count), construction of the column readers
+under the root struct reader `batch len cols`, then `T::deserialize` of every record the bulk `SeqAccess` hands out, in
+order, stopping at the first error.  (`Driver/ReadCheck.lean modelRead` is the one-column instance, with
+`readRange _ 0 len` for `mapM` over `Access.bulk len` = `List.range len`, C13.) -/
+def readBatch (t : Target) (cols : ArrFields) : R (List DVal) := do
+  let len ← Access.new true cols.length (colLens cols)
+  new Fixes.all (batch len cols)
+  (Access.bulk len).mapM (fun idx => readAs Fixes.all t (batch len cols) idx)
+
+/-- the same with `deserialize_any` for every record -/
+def readBatchAny (cols : ArrFields) : R (List DVal) := do
+  let len ← Access.new true cols.length (colLens cols)
+  new Fixes.all (batch len cols)
+  (Access.bulk len).mapM (fun idx => readAny Fixes.all (batch len cols) idx)
+
+theorem mapM_no_panic {α β} (f : α → R β) (hf : ∀ a, NoPanic (f a)) : ∀ (l : List α), NoPanic (l.mapM f)
+  | [] => NoPanic.pure _
+  | a :: r => by
+    rw [List.mapM_cons]
+    exact NoPanic.bind (hf a) fun _ => NoPanic.bind (mapM_no_panic f hf r) fun _ => NoPanic.pure _
+
+/-- C16 for whole-batch typed reads: for EVERY list of columns (ARBITRARY views: no validity, length or offset
+hypothesis — C17) and EVERY typed target, reading the whole batch returns the records or an error -/
+theorem readBatch_no_panic (t : Target) (cols : ArrFields) (site : String) : readBatch t cols ≠ panic site := by
+  unfold readBatch
+  exact NoPanic.bind (deserializer_new_no_panic _ _ _) (fun len =>
+    NoPanic.bind (C17.new_no_panic _) fun _ => mapM_no_panic _ (fun idx => C17.readAs_no_panic t _ idx) _) site
+
+theorem readBatchAny_no_panic (cols : ArrFields) (site : String) : readBatchAny cols ≠ panic site := by
+  unfold readBatchAny
+  exact NoPanic.bind (deserializer_new_no_panic _ _ _) (fun len =>
+    NoPanic.bind (C17.new_no_panic _) fun _ => mapM_no_panic _ (fun idx => C17.read_no_panic _ idx) _) site
+
+/-- the list the bulk read produces is the list of `readRange` (what the `read` suite's driver computes) -/
+theorem readBatch_eq_readRange (t : Target) (cols : ArrFields) (len : Nat) :
+    (Access.bulk len).mapM (fun idx => readAs Fixes.all t (batch len cols) idx) =
+      readRange (fun idx => readAs Fixes.all t (batch len cols) idx) 0 len := by
+  rw [SaModel.Props.C13.bulk_eq_items]
+  have key : ∀ (f : Nat → R DVal) (n s : Nat), (List.range' s n).mapM f = readRange f s n := by
+    intro f n
+    induction n with
+    | zero => intro s; rfl
+    | succ n ih =>
+      intro s
+      rw [List.range'_succ, List.mapM_cons, readRange, ih (s + 1)]
+  rw [List.range_eq_range']
+  exact key _ len 0
+
+/-- non-vacuity: a two-column batch (nullable utf8, FixedSizeList(2) of int16; C12's example) read as `Vec<(String?,
+[i16; 2])>`-like records succeeds; with a target that does not fit, and with columns of different lengths, it is an
+error -/
+def batchExample : ArrFields :=
+  .cons ⟨"s", true, []⟩ (.bytes .utf8 (some ⟨[0b101], 0⟩) [0, 1, 1, 3] [97, 98, 99])
+  (.cons ⟨"p", false, []⟩ (.fixedSizeList 3 none 2 ⟨"element", false, []⟩ (.prim .int16 none [1, 2, 3, 4, 5, 6])) .nil)
+
+example : (readBatchAny batchExample).isOk = true := by decide +kernel
+example : (readBatch (.tuple (.cons (.option .string) (.cons (.seq (.int .i16)) .nil))) batchExample).isOk = true := by
+  decide +kernel
+example : (readBatch .bool batchExample).isErr = true := by decide +kernel
+example : (readBatchAny (.cons ⟨"a", false, []⟩ (.null 2) (.cons ⟨"b", false, []⟩ (.null 3) .nil))).isErr = true := by
+  decide +kernel
+
 end Reader
+
+/-! ### schema side: every schema text / JSON value its readers are handed -/
+
+section Schema
+open SaModel.Dsl SaModel.SchemaJson
+
+/-- `Term::from_str` (the data-type mini language of `utils/dsl.rs`, quoted strings with escapes included): every
+text.  Nesting deeper than the model's fuel is an ordinary error; Rust recurses on the machine stack there (not
+expressible, see notes). -/
+theorem termFromStr_no_panic (s : Text) (site : String) : Term.fromStr s ≠ panic site :=
+  Lemmas.C16.ne_panic_of_isPanic (Lemmas.C16.fromStrWith_np false s) site
+
+/-- the parser's recursion is bounded (fix c368604): every term it returns is nested at most `MAX_TERM_DEPTH` = 32
+levels deep … -/
+theorem termFromStr_depth_bounded (s : Text) (t : Term) (h : Term.fromStr s = .ok t) : t.depth ≤ MAX_TERM_DEPTH :=
+  Lemmas.C16.fromStr_depth_le false s t h
+
+open SaModel.Lemmas.C16 (nestTerm) in
+/-- … and the texts `A(A(…(I8)…))` with `n` levels (`showTerm esc (nestTerm n)`, 3n + 2 characters) are read back while
+`n ≤ MAX_TERM_DEPTH` and refused with an ERROR beyond — for every `n`, i.e. for texts of any size; as a data type every
+one of them with `n ≥ 1` is an error.  Before the fix the real parser exhausted the stack on such a text from some
+50 000 levels on (process abort; the `overflow` suite replays `n` up to 10^6 on every run). -/
+theorem deepTerm_refused (esc : Char → Bool) (n : Nat) (children : List Field) :
+    Term.fromStr (showTerm esc (nestTerm n)) =
+      (if n ≤ MAX_TERM_DEPTH then .ok (nestTerm n) else fail "Term is nested too deeply") ∧
+    (buildDataType (showTerm esc (nestTerm (n + 1))) children).isErr = true :=
+  ⟨Lemmas.C16.fromStr_nest esc n, Lemmas.C16.buildDataType_nest esc n children⟩
+
+example : String.ofList (showTerm (fun _ => false) (Lemmas.C16.nestTerm 3)) = "A(A(A(I8)))" := by decide
+
+/-- `build_data_type(data_type, children)`: every text, every list of children -/
+theorem buildDataType_no_panic (dataType : Text) (children : List Field) (site : String) :
+    buildDataType dataType children ≠ panic site :=
+  Lemmas.C16.ne_panic_of_isPanic (Lemmas.C16.buildDataTypeWith_np false dataType children) site
+
+/-- `validate_field`: every field tree (all data types, every metadata map) -/
+theorem validateField_no_panic (f : Field) (site : String) : validateField f ≠ panic site :=
+  Lemmas.C16.ne_panic_of_isPanic (Lemmas.C16.validateField_np f) site
+
+/-- one field object (`CustomField::deserialize` + `into_field` + `validate_field`): EVERY JSON value — wrong kinds,
+missing / duplicate / unknown keys, any `data_type` text, any strategy, any metadata, any nesting of children -/
+theorem parseField_no_panic (v : JVal) (site : String) : parseField v ≠ panic site :=
+  Lemmas.C16.ne_panic_of_isPanic (Lemmas.C16.parseFieldWith_np false v) site
+
+/-- `SerdeArrowSchema::deserialize` (`from_value`, `serde_json::from_str`): every JSON value, both top-level forms -/
+theorem parseSchema_no_panic (v : JVal) (site : String) : parseSchema v ≠ panic site :=
+  Lemmas.C16.ne_panic_of_isPanic (Lemmas.C16.parseSchemaWith_np false v) site
+
+/-- foreign (arrow / marrow) field objects handed to `from_value` -/
+theorem acceptForeign_no_panic (fs : List Field) (site : String) : acceptForeignList fs ≠ panic site :=
+  Lemmas.C16.ne_panic_of_isPanic (Lemmas.C16.acceptForeignList_np fs) site
+
+/-- serialising a schema: the one failure (a type `PrettyFieldDataType` cannot write) is an error -/
+theorem printSchema_no_panic (esc : Char → Bool) (fields : List Field) (site : String) :
+    printSchema esc fields ≠ panic site :=
+  Lemmas.C16.ne_panic_of_isPanic (Lemmas.C16.printSchema_np esc fields) site
+
+/-- a schema its constructors accept can be given to the builder: `from_value` followed by `to_marrow`-style use —
+reading the schema, constructing the builders, pushing any rows, finishing — never unwinds -/
+theorem schema_then_build_no_panic (ext : Ext) (he : ExtNP ext) (v : JVal) (rows : List SVal) (site : String) :
+    (parseSchema v >>= fun fields => toMarrow ext fields rows) ≠ panic site :=
+  Lemmas.C16.ne_panic_of_isPanic
+    (bind_no_panic _ _ (Lemmas.C16.parseSchemaWith_np false v) fun fields => Lemmas.C16.toMarrow_np ext he fields rows) site
+
+/-- non-vacuity: an accepted nested field; texts and values that are refused -/
+example : (parseField (.obj (.cons "name" (.str "a") (.cons "data_type" (.str "List") (.cons "children"
+    (.arr (.cons (.obj (.cons "name" (.str "element") (.cons "data_type" (.str "Timestamp(Second, Some(\"UTC\"))") .nil))) .nil))
+    .nil))))).isOk = true := by decide +kernel
+example : (buildDataType "Decimal128(300, 1)".toList []).isErr = true ∧ (buildDataType "Timestamp(Second, Some(\"a\\q\"))".toList []).isErr = true ∧
+    (buildDataType "((((".toList []).isErr = true ∧ (buildDataType "FixedSizeList(-99999999999)".toList []).isErr = true := by
+  decide +kernel
+example : (parseSchema (.obj (.cons "fields" (.num 3) .nil))).isErr = true ∧ (parseSchema (.str "x")).isErr = true ∧
+    (parseField (.obj (.cons "name" (.str "a") (.cons "name" (.str "b") .nil)))).isErr = true := by decide +kernel
+
+end Schema
 
 /-! ### collected from the codec and helper models (proved with their properties) -/
 
@@ -332,5 +615,43 @@ theorem tensor_fixed_storage_no_panic {ε : Type} (h : SaModel.Ext.FixedShapeTen
     h.tryFrom.isPanic = false := SaModel.Props.C20.fixed_storage_no_panic h
 theorem tensor_variable_storage_no_panic {ε : Type} (h : SaModel.Ext.VariableShapeTensorField ε) :
     h.tryFrom.isPanic = false := SaModel.Props.C20.variable_storage_no_panic h
+
+/-! the remaining extension helpers of C20: constructors and setters, for every argument -/
+
+theorem tensor_dim_names_no_panic (n : Nat) (d : List SaModel.Ext.Str) : (SaModel.Ext.checkDimNames n d).isPanic = false := by
+  unfold SaModel.Ext.checkDimNames; split <;> rfl
+theorem bool8_no_panic {ε : Type} (h : SaModel.Ext.Bool8Field) : (h.tryFrom (ε := ε)).isPanic = false := rfl
+theorem tensor_fixed_new_no_panic {ε : Type} (name : String) (element : ε) (elementName : String) (shape : List Nat) :
+    (SaModel.Ext.FixedShapeTensorField.new name element elementName shape).isPanic = false := by
+  unfold SaModel.Ext.FixedShapeTensorField.new; split <;> rfl
+theorem tensor_variable_new_no_panic {ε : Type} (name : String) (element : ε) (elementName : String) (ndim : Nat) :
+    (SaModel.Ext.VariableShapeTensorField.new name element elementName ndim).isPanic = false := by
+  unfold SaModel.Ext.VariableShapeTensorField.new; split <;> rfl
+
+theorem of_unit_check {α} (r : R Unit) (hr : r.isPanic = false) (k : α) :
+    R.isPanic (match r with | .error e => (.error e : R α) | .ok () => .ok k) = false := by
+  cases r with
+  | ok u => rfl
+  | error e => cases e <;> first | rfl | exact hr
+
+theorem tensor_fixed_setPermutation_no_panic {ε : Type} (h : SaModel.Ext.FixedShapeTensorField ε) (v : List Nat) :
+    (h.setPermutation v).isPanic = false :=
+  of_unit_check _ ((isPanic_false_iff _).2 (fun site => SaModel.Props.C20.perm_no_panic _ _ site)) _
+theorem tensor_fixed_setDimNames_no_panic {ε : Type} (h : SaModel.Ext.FixedShapeTensorField ε) (v : List SaModel.Ext.Str) :
+    (h.setDimNames v).isPanic = false := of_unit_check _ (tensor_dim_names_no_panic _ _) _
+theorem tensor_variable_setPermutation_no_panic {ε : Type} (h : SaModel.Ext.VariableShapeTensorField ε) (v : List Nat) :
+    (h.setPermutation v).isPanic = false :=
+  of_unit_check _ ((isPanic_false_iff _).2 (fun site => SaModel.Props.C20.perm_no_panic _ _ site)) _
+theorem tensor_variable_setDimNames_no_panic {ε : Type} (h : SaModel.Ext.VariableShapeTensorField ε) (v : List SaModel.Ext.Str) :
+    (h.setDimNames v).isPanic = false := of_unit_check _ (tensor_dim_names_no_panic _ _) _
+theorem tensor_variable_setUniformShape_no_panic {ε : Type} (h : SaModel.Ext.VariableShapeTensorField ε)
+    (v : List (Option Nat)) : (h.setUniformShape v).isPanic = false :=
+  of_unit_check _ (by unfold SaModel.Ext.VariableShapeTensorField.checkUniformShape; split <;> rfl) _
+
+/-- non-vacuity: a permutation that is refused, one that is accepted; an index far out of range -/
+example : ((SaModel.Ext.FixedShapeTensorField.mk "t" false () [2, 3] none none).setPermutation [1, 1]).isErr = true ∧
+    ((SaModel.Ext.FixedShapeTensorField.mk "t" false () [2, 3] none none).setPermutation [1, 0]).isOk = true ∧
+    ((SaModel.Ext.FixedShapeTensorField.mk "t" false () [2, 3] none none).setPermutation [0, 18446744073709551615]).isErr = true := by
+  decide
 
 end SaModel.Props.C16
